@@ -184,7 +184,10 @@ def odd_requests(rng):
     """Requests with hand-made option sections (case variants, signs, unknown options, junk)."""
     names = [b"blksize", b"BLKSIZE", b"BlkSize", b"bl\xe2\x84\xaasize", b"tsize", b"TSIZE", b"timeout", b"tImeOut", b"t\xc4\xb0meout",
              b"windowsize", b"WINDOWSIZE", b"foo", b"", b"blksize ", b"blk", b"\xff", b"multicast",
-             b"windowsize2", b"WindowSizeHint", b"windowsize ", b"windowsiz", b"timeoutms", b"tsize64", b"xblksize", b"blksize\xc3\xa9", b"windowsize-max"]
+             b"windowsize2", b"WindowSizeHint", b"windowsize ", b"windowsiz", b"timeoutms", b"tsize64", b"xblksize", b"blksize\xc3\xa9", b"windowsize-max",
+             # letters whose lower-case form has a different UTF-8 length (U+0130, U+023A, U+023E grow; Kelvin, Ohm, Angstrom, capital sharp s shrink)
+             b"\xc4\xb0", b"\xc4\xb0\xc4\xb0", b"\xc4\xb0\xc4\xb0\xc4\xb0\xc4\xb0", b"bl\xc4\xb0size", b"\xc8\xba", b"\xc8\xbe\xc8\xba", b"\xe1\xba\x9e",
+             b"\xe2\x84\xa6", b"\xe2\x84\xab", b"T\xc4\xb0MEOUT", b"\xe2\x84\xaa\xe2\x84\xaa"]
     vals = [b"0", b"1", b"512", b"+5", b"-1", b"-0", b"", b"+", b"++1", b"1e3", b"0x10", b" 1", b"1 ", b"007",
             b"18446744073709551615", b"18446744073709551616", b"99999999999999999999999", b"abc", b"\xff", b"\xc3\xa9", b"1\xef\xbc\x91"]
     out = []
